@@ -215,6 +215,14 @@ func Apply(fs FS, root string, o Op, seq int) error {
 			return err
 		}
 		return fs.RemoveAll(moved)
+	case "mvdir-onto":
+		// one Spec directory is renamed to the name of another one that does not exist at the moment
+		// (o.Content holds that name): what was watched as the first is, from now on, the second
+		dst := filepath.Join(root, o.Content)
+		if !exists(dir) || exists(dst) {
+			return fmt.Errorf("not applicable")
+		}
+		return fs.Rename(dir, dst)
 	case "mvdir-in":
 		// a directory prepared elsewhere (holding one Spec file) is renamed to the Spec directory's name
 		if exists(dir) {
@@ -257,6 +265,10 @@ func Alphabet(dirs []string, optionalDirs []string) []Op {
 		ops = append(ops, Op{Kind: "mkdir", Dir: d}, Op{Kind: "rmtree", Dir: d})
 		ops = append(ops, Op{Kind: "mvdir-away", Dir: d}, Op{Kind: "mvdir-in", Dir: d, Name: "x.yaml", Content: "A"})
 		ops = append(ops, Op{Kind: "recreate", Dir: d}, Op{Kind: "mvdir-away-deleted", Dir: d})
+		// "mvdir-onto" (one Spec directory renamed to the name of another, missing one) is implemented in
+		// Apply but not part of the alphabet: inotify watch descriptors follow the inode and fsnotify keeps
+		// one entry per NAME, so two names can share one descriptor afterwards - the environment model
+		// keys watches by path and does not represent that (DESIGN 8.5, sixteenth wave, C11)
 	}
 	return ops
 }
